@@ -380,7 +380,7 @@ class Runner:
             return
         if suite.rule:
             self.rule_parts.append(f"{suite.name}: {suite.rule}")
-        bad = coq_bad_indices(suite.imports, suite.case_type, suite.chk, terms)
+        bad = coq_bad_indices(suite.imports, suite.case_type, suite.chk, terms, shard=getattr(suite, "shard", 250))
         self.evaluations += len(cases)
         self.suite_counts[suite.name] = self.suite_counts.get(suite.name, 0) + len(cases)
         for i, (c, o) in enumerate(zip(cases, outs)):
